@@ -196,13 +196,17 @@ def term_orders_as_expr(repo: Repo):
         d = seq_direction(lp.iter, f)
         if d is None:
             raise AnalysisError(RULE, f"as_expr: iteration order of `{norm(lp.iter)}` not understood")
-        upd = [s for s in guarded_body(lp) if isinstance(s, ast.Assign) and norm(s.targets[0]) == "term"]
-        if len(upd) != 1 or not (isinstance(upd[0].value, ast.BinOp) and isinstance(upd[0].value.op, ast.Mult)):
+        # the running product of one term: the local that is rebound to itself times an operator power
+        upd = [s for s in guarded_body(lp) if isinstance(s, ast.Assign) and isinstance(s.targets[0], ast.Name)
+               and isinstance(s.value, ast.BinOp) and isinstance(s.value.op, ast.Mult)
+               and norm(s.targets[0]) in (norm(s.value.left), norm(s.value.right))]
+        if len(upd) != 1:
             raise AnalysisError(RULE, "as_expr: term update not understood")
         v = upd[0].value
-        if norm(v.left) == "term":
+        TERM = norm(upd[0].targets[0])
+        if norm(v.left) == TERM:
             mode = "append"
-        elif norm(v.right) == "term":
+        elif norm(v.right) == TERM:
             mode = "prepend"
         else:
             raise AnalysisError(RULE, f"as_expr: update `{norm(upd[0])}`")
@@ -973,3 +977,131 @@ def rule_operator_sort_consistency(rep: Report, repo: Repo):
         rep.fail(R, "number_ordered_form sorts of operators use different keys",
                  f"{[(t[:70], sum(1 for _m, _c, t2 in keys if t2 == t)) for t in distinct]}: forms built at one site and merged at another disagree "
                  "about the order of the operators (fermionic signs, meaning of the power tuples)", repo.loc(*site))
+
+
+# ---------------------------------------------------------------------------
+# (vi) cancellation of number operators of binary (spin / fermion) modes
+# ---------------------------------------------------------------------------
+
+
+def operator_classes(repo: Repo, rule: str):
+    """(class tags in the order of `generator_types`, tags of the infinite-order classes): read from the module-level tuple and
+    from how `_n_inf_order` is counted."""
+    tree = repo.trees[MOD]
+    gts = [n for n in tree.body if isinstance(n, ast.Assign) and norm(n.targets[0]) == "generator_types" and isinstance(n.value, ast.Tuple)]
+    if len(gts) != 1:
+        raise AnalysisError(rule, "module-level tuple `generator_types` not found")
+    tags = [norm(e).split(".")[-1] for e in gts[0].value.elts]
+    cls = repo.find(CLS, rule)
+    counts = {}  # attribute -> class tag counted
+    inf_attrs = None
+    for n in ast.walk(cls):
+        if isinstance(n, ast.Assign) and isinstance(n.targets[0], ast.Attribute):
+            a = n.targets[0].attr
+            v = n.value
+            if a == "_n_inf_order":
+                parts, todo = [], [v]
+                while todo:
+                    x = todo.pop()
+                    if isinstance(x, ast.BinOp) and isinstance(x.op, ast.Add):
+                        todo += [x.left, x.right]
+                    elif isinstance(x, ast.Attribute):
+                        parts.append(x.attr)
+                    else:
+                        raise AnalysisError(rule, f"`_n_inf_order = {norm(v)[:60]}` not understood")
+                inf_attrs = parts
+            elif isinstance(v, ast.Call) and call_name(v) == "sum" and len(v.args) == 1 and isinstance(v.args[0], ast.GeneratorExp) \
+                    and isinstance(v.args[0].elt, ast.Call) and call_name(v.args[0].elt) == "isinstance" and len(v.args[0].elt.args) == 2:
+                counts[a] = norm(v.args[0].elt.args[1]).split(".")[-1]
+    if inf_attrs is None or any(a not in counts for a in inf_attrs):
+        raise AnalysisError(rule, "how `_n_inf_order` counts the operator classes is not understood")
+    inf = {counts[a] for a in inf_attrs}
+    if not inf <= set(tags) or tags[:len(inf)] != [t for t in tags if t in inf]:
+        raise AnalysisError(rule, f"infinite-order classes {sorted(inf)} are not the leading entries of generator_types {tags}")
+    return tags, inf, counts
+
+
+def rule_binary_number_cancellation(rep: Report, repo: Repo):
+    """`_cancel_binary_operator_numbers` (used by the second-quantised Sylvester solver on its denominators) may set N_op to 0 in the
+    coefficient of a term exactly for the spin / fermion operators that occur in that term (n_f f = 0 by nilpotence).  The number
+    operator of a boson or ladder mode is unbounded and must stay.  Decided by evaluating the construction of the replacement table
+    on models with one operator of each class (and with some classes absent) for power patterns that tell the positions apart."""
+    from .concrete import Model, Obj
+    R = "E10.cancel"
+    f = repo.find(f"{CLS}::_cancel_binary_operator_numbers", R)
+    loc = lambda n: repo.loc(MOD, n)
+    tags, inf, counts = operator_classes(repo, R)
+    loops = [s for s in f.body if isinstance(s, ast.For) and isinstance(s.target, ast.Tuple) and len(s.target.elts) == 2
+             and any(t in norm(s.iter) for t in ("self.args[1]", "self.terms"))]
+    if len(loops) != 1:
+        raise AnalysisError(R, "_cancel_binary_operator_numbers: loop over the terms (powers, coeff) not found")
+    loop = loops[0]
+    PW, CF = (norm(x) for x in loop.target.elts)
+    # the statement that applies the table
+    idx_x, xarg = None, None
+    for i, s in enumerate(loop.body):
+        xs = [c for c in ast.walk(s) if isinstance(c, ast.Call) and isinstance(c.func, ast.Attribute) and c.func.attr in ("xreplace", "subs")
+              and len(c.args) == 1]
+        if xs:
+            if idx_x is not None or len(xs) != 1 or norm(xs[0].func.value) != CF:
+                raise AnalysisError(R, "_cancel_binary_operator_numbers: more than one substitution into the coefficient")
+            idx_x, xarg = i, xs[0].args[0]
+    if idx_x is None:
+        raise AnalysisError(R, "_cancel_binary_operator_numbers: `coeff.xreplace(<table>)` not found")
+    pre_loop = f.body[:f.body.index(loop)]
+    n_cases = 0
+    bad = []
+    model_sets = [tags, [t for t in tags if t in inf], [t for t in tags if t not in inf], [tags[len(inf) - 1], tags[-1]], [tags[0], tags[len(inf)]]]
+    for present in model_sets:
+        ops = tuple(Obj(t, f"{t}#{k}") for k, t in enumerate(present))
+        paths = {"self.operators": ops, "self.args[0]": ops, "self._n_inf_order": sum(1 for o in ops if o.cls in inf),
+                 "self._number_operator_placeholders": tuple(("N", o.label) for o in ops), "sympy.S.Zero": "ZERO", "S.Zero": "ZERO",
+                 "sympy.S.One": "ONE", "S.One": "ONE", "generator_types": tuple(tags), "operator_types": tuple(tags)}
+        for attr, t in counts.items():
+            paths[f"self.{attr}"] = sum(1 for o in ops if o.cls == t)
+        funcs = {"NumberOperator": lambda op: ("Nop", op), "_number_operator_to_placeholder": lambda x: ("N", x[1].label),
+                 "self._number_operator_to_placeholder": lambda x: ("N", x[1].label)}
+        names = {"Zero": "ZERO", "One": "ONE", "__classes__": tuple(tags) + ("SigmaPlus", "SigmaOpBase")}
+        sub = {"SigmaOpBase": {"SigmaMinus", "SigmaPlus"}}
+        patterns = [tuple(range(1, len(ops) + 1)), (0,) * len(ops)] + [tuple((sgn if j == i else 0) for j in range(len(ops))) for i in range(len(ops)) for sgn in (1, -1)]
+        m = Model(R, "_cancel_binary_operator_numbers", names=names, paths=paths, funcs=funcs, subclasses=sub)
+        env0 = {}
+        early = False
+        for s in pre_loop:
+            if isinstance(s, ast.Expr) and isinstance(s.value, ast.Constant):
+                continue
+            if isinstance(s, ast.If) and not s.orelse and len(s.body) == 1 and isinstance(s.body[0], ast.Return) and norm(s.body[0].value) == "self":
+                if m.truth(m.ev(s.test, env0)):
+                    early = True
+                    break
+                continue
+            if isinstance(s, ast.Assign):
+                m.run([s], env0)
+                continue
+            raise AnalysisError(R, f"_cancel_binary_operator_numbers: statement `{norm(s)[:60]}` before the term loop not understood")
+        for pat in patterns:
+            n_cases += 1
+            want = {("N", o.label): "ZERO" for o, p in zip(ops, pat) if p != 0 and o.cls not in inf}
+            if early:
+                got = {}
+            else:
+                env = dict(env0)
+                env[PW], env[CF] = pat, Obj("coeff", "coeff")
+                m.budget = 20000
+                m._block(loop.body[:idx_x], env)
+                # statements of the applying statement that precede the call are part of it only as sub-expressions: evaluate the table
+                got = m.ev(xarg, env)
+                if not isinstance(got, dict):
+                    raise AnalysisError(R, "_cancel_binary_operator_numbers: the substitution argument is not a table on the model")
+            if got != want:
+                bad.append((present, pat, got, want, early))
+    if bad:
+        present, pat, got, want, early = bad[0]
+        show = lambda d: "{" + ", ".join(f"N[{k[1].split('#')[0]}] -> {v}" for k, v in sorted(d.items(), key=repr)) + "}"
+        rep.fail(R, f"{CLS}._cancel_binary_operator_numbers replaces {show(got)} in a term with powers {pat} over operators {list(present)}"
+                 + (" (early return)" if early else ""),
+                 f"required {show(want)}: N_op vanishes next to op / op† only for the binary (spin, fermion) classes {sorted(set(tags) - inf)}; "
+                 f"the number operator of {sorted(inf)} is unbounded. {len(bad)} of {n_cases} model cases differ", loc(f))
+    else:
+        rep.ok(R, f"{CLS}._cancel_binary_operator_numbers sets N_op to 0 exactly for the spin / fermion operators present in a term",
+               f"{n_cases} model cases (operator sets x power patterns); infinite-order classes {sorted(inf)}", loc(f))
